@@ -550,7 +550,7 @@ func (f *frame) execNext(in *ssa.Next, st *State) {
 	seen := st.Heap(rs.seen)
 	c.assume(st, fmt.Sprintf("(=> %s (and (not (= %s nil)) (select (select %s %s) %s) (not (select %s %s))))", okv, rs.x.T, st.Heap(dom), rs.x.T, k, seen, k))
 	// Go: every entry present when the range started and not removed meanwhile is produced exactly once
-	c.assume(st, fmt.Sprintf("(=> (not %s) (forall ((k %s)) (! (=> (and (select %s k) (not (= %s nil)) (select (select %s %s) k)) (select %s k)) :pattern ((select %s k)) :pattern ((select %s k)))))", okv, ks, rs.dom0, rs.x.T, st.Heap(dom), rs.x.T, seen, seen, rs.dom0))
+	c.assume(st, fmt.Sprintf("(=> (not %s) (forall ((k %s)) (! (=> (and (select %s k) (not (= %s nil)) (select (select %s %s) k)) (select %s k)) :pattern ((select %s k)) :pattern ((select %s k)) :pattern ((select (select %s %s) k)))))", okv, ks, rs.dom0, rs.x.T, st.Heap(dom), rs.x.T, seen, seen, rs.dom0, st.Heap(dom), rs.x.T))
 	st.heaps[rs.seen] = c.define("seen", fmt.Sprintf("(Array %s Bool)", ks), fmt.Sprintf("(ite %s (store %s %s true) %s)", okv, seen, k, seen))
 	c.assumed["range over a map produces every entry that was present when the loop started and is still present, exactly once, in arbitrary order (Go spec); entries deleted and re-inserted during the loop are not modelled"] = true
 	vterm := c.define(valName(in)+"_v", g.TE.SortOf(mt.Elem()), fmt.Sprintf("(select (select %s %s) %s)", st.Heap(val), rs.x.T, k))
